@@ -418,6 +418,9 @@ fn props_known_class(m: &BTreeMap<String, String>) -> Option<&'static str> {
         Some("C17/properties-unicode-escape-width")
     } else if m.values().any(|v| v.ends_with(' ')) {
         Some("C17/properties-trailing-space")
+    } else if m.iter().any(|(k, v)| [k, v].iter().any(|t| t.len() > 240 && t.chars().any(|c| c as u32 >= 0x100))) {
+        // a `\u` escape that does not fit into what is left of the writer's 256-byte buffer
+        Some("C17/properties-escape-cut-at-buffer-end")
     } else {
         None
     }
@@ -779,6 +782,14 @@ impl Prop for C17Prop {
         ];
         for m in maps {
             let m: BTreeMap<String, String> = m.into_iter().map(|(k, v)| (k.to_string(), v.to_string())).collect();
+            out.push(props_case(&m));
+        }
+        // finding C17/properties-escape-cut-at-buffer-end: the `\u` escape of the last character does
+        // not fit into what is left of the writer's 256-byte buffer (and two values next to the class
+        // that round-trip)
+        for n in [250usize, 251, 253, 254, 255, 256, 765] {
+            let mut m = BTreeMap::new();
+            m.insert("k".to_string(), format!("{}中", "a".repeat(n)));
             out.push(props_case(&m));
         }
         for t in LOAD_FIXED {
